@@ -610,6 +610,7 @@ def run(ctx):
 
 def replay(ctx, path):
     r = json.load(open(path))
+    gen_sigs(ctx)      # the judge reads the declaration table of the tree under test
     model = ctx.model("Runtime")
     c = r["case"]["case"] if isinstance(r.get("case"), dict) and "case" in r["case"] else r["case"]
     vers = [r["case"].get("python")] if isinstance(r.get("case"), dict) and r["case"].get("python") else INTERPRETERS
